@@ -432,6 +432,10 @@ def case_ip6text(c, out):
     out.fail("ip6-misparsed", "IPAddr6(%r) = %s, ipaddress says %s" % (text, x, ref))
 
 
+import re as _re
+_IP6_STRUCTURAL = _re.compile(r"[0-9a-fA-F:]+")
+
+
 def case_ip6bad(c, out):
   A, U = _mods()
   text, must = c["text"], c.get("must_raise", False)
@@ -451,6 +455,12 @@ def case_ip6bad(c, out):
       out.fail("ip6-wellformed-rejected", "IPAddr6(%r) raised %r" % (text, v))
     elif v.raw != ref.packed:
       out.fail("ip6-misparsed", "IPAddr6(%r) = %s, ipaddress says %s" % (text, v, ref))
+  elif ref is None and _IP6_STRUCTURAL.fullmatch(text) and all(len(g) <= 4 for g in text.split(":")):
+    # only hex digits and colons, every group at most 4 digits: what is wrong with the text can only be the
+    # placement or the number of colons/groups, which every IPv6 text parser (RFC 4291 2.2) rejects
+    out.label("ip6text-structural-must-raise")
+    if not r:
+      out.fail("ip6-malformed-accepted", "IPAddr6(%r) returned %s" % (text, v), cls="colon-structure")
   else:
     # includes RFC 4007 zone suffixes ('%eth0'), which ipaddress accepts and POX does not claim to
     out.label("ip6text-ambiguous-not-judged")
@@ -828,7 +838,8 @@ _IP6_BAD = [
   ("", "empty"), ("1", "one-group"), ("hello", "non-hex"), ("1.2.3.4", "ipv4-text"),
   ("1:2:3:4:5:6:7", "seven-groups-no-gap"), ("1:2:3", "three-groups-no-gap"), ("1:2:3:4:5:6:1.2.3.4:7", "v4-not-last"),
 ]
-_IP6_AMBIG = [":::", "1:2:3:4:5:6:7:8::", "::1:2:3:4:5:6:7:8", ":1:2:3:4:5:6:7", "1:2:3:4:5:6:7:", "::1.2.3", "1::2/64", " ::1", "::1 ", "1:::2"]
+_IP6_AMBIG = [":::", "1:2:3:4:5:6:7:8::", "::1:2:3:4:5:6:7:8", ":1:2:3:4:5:6:7", "1:2:3:4:5:6:7:", "::1.2.3", "1::2/64", " ::1", "::1 ", "1:::2",
+              ":1::", ":1::2", "1::2:", "::1:", ":", "1:", ":1", "1::2:3:4:5:6:7:8", "::00008", "1:2:3:4:5:6:7:8:"]
 
 
 def enum_ip6bad(tier):
